@@ -3,7 +3,8 @@
 
 Executable small-step model (import-free) of `caching_session.rs:199-245` `add_prepared_statement_owned` run by several
 callers at once on ONE cache (`DashMap<String, UnconfiguredPreparedStatement>`). Every access to the map is one atomic
-step (DashMap shard locks); between two accesses of one caller any steps of other callers may happen:
+step (DashMap shard locks; `len()`, `iter().next()`, `remove`, `insert`, `get` are SEPARATE steps); between two
+accesses of one caller any steps of other callers may happen:
 
     get(text)                       -- hit: return a handle on the cached statement's shared metadata cell; miss: ↓
     Session::prepare(text).await    -- the cluster answers with an id; a NEW statement object (new metadata cell) is made
@@ -42,8 +43,10 @@ inductive Pc
   | lookup (text : String)
   /-- `Session::prepare` in flight -/
   | preparing (text : String)
-  /-- at the `while` condition, holding the freshly prepared statement -/
+  /-- at the `while` condition (about to read `cache.len()`), holding the freshly prepared statement -/
   | loopHead (e : Entry)
+  /-- the condition held; about to call `iter().next()` - the map may have changed since `len()` was read -/
+  | picking (e : Entry)
   /-- `iter().next()` yielded this key; about to `remove` it -/
   | removing (e : Entry) (victim : String)
   /-- left the loop; about to `insert` -/
@@ -62,7 +65,11 @@ structure State where
 def upd (f : Nat → Pc) (k : Nat) (v : Pc) : Nat → Pc := fun i => if i = k then v else f i
 
 /-- one atomic step of caller `k`. `prep` = what `Session::prepare` returns for a text; `choice` = which entry
-`iter().next()` yields (index into the map, arbitrary). -/
+`iter().next()` yields (index into the map, arbitrary).
+
+DECLARED LIMIT: `prep` is one function for the whole run - a cluster whose answer for a text changes WHILE several
+callers are inside `add_prepared_statement` (a node starting to refuse, or to answer another id, between two
+concurrent preparations) is not expressible; the harness changes node behaviour only between operations. -/
 def step (cap : Nat) (prep : String → Except Nat String) (st : State) (k : Nat) (choice : Nat) : State :=
   match st.pc k with
   | .lookup t =>
@@ -74,11 +81,13 @@ def step (cap : Nat) (prep : String → Except Nat String) (st : State) (k : Nat
     | .error c => { st with pc := upd st.pc k (.failed c) }
     | .ok id => { st with pc := upd st.pc k (.loopHead ⟨t, id, st.nextCell⟩), nextCell := st.nextCell + 1 }
   | .loopHead e =>
-    if cap ≤ st.cache.length then
-      match st.cache[choice % st.cache.length]? with
-      | some v => { st with pc := upd st.pc k (.removing e v.text) }
-      | none => { st with pc := upd st.pc k (.loopHead e) }
+    if cap ≤ st.cache.length then { st with pc := upd st.pc k (.picking e) }
     else { st with pc := upd st.pc k (.inserting e) }
+  | .picking e =>
+    -- whatever the map holds NOW (another caller may have brought it below the capacity: over-eviction; or emptied it)
+    match st.cache[choice % st.cache.length]? with
+    | some v => { st with pc := upd st.pc k (.removing e v.text) }
+    | none => { st with pc := upd st.pc k (.loopHead e) }
   | .removing e v => { st with cache := cacheRemove v st.cache, pc := upd st.pc k (.loopHead e) }
   | .inserting e => { st with cache := cacheInsert e st.cache, pc := upd st.pc k (.done e true) }
   | _ => st
